@@ -2058,3 +2058,70 @@ def check_axiom_refs(contracts_dir):
                 if not re.search(r"pub proof fn %s\s*\(" % re.escape(f), cache[key]):
                     problems.append("%s: certificate comp_%s has no theorem `%s`" % (name, key, f))
     return seen, problems
+
+
+_LANG = {"UriRef": "uriref", "Scheme": "scheme", "Authority": "authority", "Path": "path", "Query": "query", "Fragment": "fragment",
+         "UserInfo": "userinfo", "Host": "host", "Port": "port", "Segment": "segment"}
+
+
+def _stmt(src, fn):
+    m = re.search(r"pub proof fn %s\s*\((.*?)\)\s*(requires.*?)?ensures(.*?)\n\{" % re.escape(fn), src, re.S)
+    return (m.group(1), m.group(2) or "", m.group(3)) if m else None
+
+
+def _canon(t):
+    """normal form in which a certificate theorem and its in-crate restatement must coincide: Seq<u8> for Seq<int>,
+    lang_x(t) for X_run(0, t), named character classes for cls(C_.., b) / csqf(b) / explicit tests, sqN(..) for seq![..],
+    subrange for skip, no_slash(x) for its definition"""
+    t = re.sub(r"//.*", "", t)
+    t = re.sub(r"\s+", "", t)
+    t = t.replace("#[trigger]", "").replace("asint", "").replace("Seq<int>", "Seq<u8>")
+    for k, v in _LANG.items():
+        t = t.replace("%s_run(0," % k, "lang_%s(" % v)
+    t = re.sub(r"cls\(C_CSQF,([^()]*)\)", r"CSQF(\1)", t); t = re.sub(r"csqf\(([^()]*)\)", r"CSQF(\1)", t)
+    t = re.sub(r"cls\(C_SQF,([^()]*)\)", r"SQF(\1)", t); t = re.sub(r"(?<![a-z])sqf\(([^()]*)\)", r"SQF(\1)", t)
+    t = re.sub(r"cls\(C_QF,([^()]*)\)", r"QF(\1)", t); t = re.sub(r"(?<![a-z])qf\(([^()]*)\)", r"QF(\1)", t)
+    t = re.sub(r"cls\(C_F,([^()]*)\)", r"F(\1)", t)
+    t = re.sub(r"!\((\w+\[\w+\])==35\|\|\1==47\|\|\1==58\|\|\1==63\)", r"!CSQF(\1)", t)
+    t = re.sub(r"(\w+\[\w+\])!=63&&\1!=35", r"!QF(\1)", t)
+    t = re.sub(r"(\w+\[\w+\])!=35", r"!F(\1)", t)
+    t = t.replace("s.skip(k+1)", "s.subrange(k+1,s.len())")
+    t = t.replace("hs_", "hs").replace("host_start(", "host_start_at(")
+    t = t.replace("seq![47int]+p", "make_abs(p)").replace("seq![47int,46int]+p", "shield_dslash(p)").replace("seq![46int,47int]+p", "shield_colon(p)")
+    t = t.replace("seq![47int]+r", "sq1(47)+r")
+    t = t.replace("Seq::<int>::empty()", "sq0()")
+    t = re.sub(r"seq!\[(\d+)int,(\d+)int\]", r"sq2(\1,\2)", t)
+    t = re.sub(r"seq!\[(\d+)int\]", r"sq1(\1)", t)
+    t = t.replace("forall|i:int|0<=i<x.len()==>x[i]!=47", "no_slash(x)")
+    return t
+
+
+def check_axiom_statements(contracts_dir):
+    """each in-crate axiom that names ONE certificate theorem must have the same requires / ensures as that theorem after
+    the normalisation of _canon. Returns (compared, mismatches)."""
+    n, bad = 0, []
+    cache = {}
+    for name in sorted(os.listdir(contracts_dir)):
+        if not name.endswith(".rs"):
+            continue
+        txt = open(os.path.join(contracts_dir, name)).read()
+        for m in re.finditer(r"/// certificate comp_(\w+?)::(\w+)[^\n]*\n(?:///[^\n]*\n)*#\[verifier::external_body\]\npub proof fn (\w+)", txt):
+            key, fn, ax = m.groups()
+            if key not in CERTS:
+                continue
+            if key not in cache:
+                cache[key] = CERTS[key]()[0]
+            a, b = _stmt(cache[key], fn), _stmt(txt, ax)
+            n += 1
+            if not a or not b or [_canon(x) for x in a[1:]] != [_canon(x) for x in b[1:]]:
+                bad.append("%s (%s) vs comp_%s::%s" % (ax, name, key, fn))
+    return n, bad
+
+
+# IRI family (code points): the same theorems for the RFC 3987 automata. No in-crate consumer (the byte-level restatement
+# needs UTF-8 reasoning); proved in the thorough tier as facts about the grammar.
+CERTS["iriref_compose"] = lambda: compose_cert(dfa.reference("rfc3987.abnf", "IRI-reference"), dfa.reference("rfc3987.abnf", "scheme"), dfa.reference("rfc3987.abnf", "iauthority"),
+                                               dfa.reference("rfc3987.abnf", "ipath"), dfa.reference("rfc3987.abnf", "iquery"), dfa.reference("rfc3987.abnf", "ifragment"), a_name="IriRef")
+CERTS["iri_authority"] = lambda: authority_cert(dfa.reference("rfc3987.abnf", "iauthority"), dfa.reference("rfc3987.abnf", "iuserinfo"), dfa.reference("rfc3987.abnf", "ihost"), dfa.reference("rfc3987.abnf", "port"))
+CERTS["iri_authority_compose"] = lambda: authority_compose_cert(dfa.reference("rfc3987.abnf", "iauthority"), dfa.reference("rfc3987.abnf", "iuserinfo"), dfa.reference("rfc3987.abnf", "ihost"), dfa.reference("rfc3987.abnf", "port"))
+CERTS["iri_path_algebra"] = lambda: path_algebra_cert(dfa.reference("rfc3987.abnf", "ipath"), dfa.reference("rfc3987.abnf", "isegment"))
